@@ -1,4 +1,4 @@
-import MJ.Proofs.SafeInv
+import MJ.Proofs.SafeFrag
 /-!
 # C02 — HTML auto-escaping is sound: unsafe data is escaped exactly once
 
@@ -118,6 +118,40 @@ theorem all_registered_names_classified :
     the sources) is accounted for in the model -/
 theorem all_safe_producers_modelled :
     ∀ s ∈ Gen.safeProducerSites, s ∈ modelledSafeSites.map (·.1) := by decide
+
+/-! ## programs (stage "programs": the theorem is stated over template programs)
+
+`execProg strict p ctx` (`MJ/Model/SafeProg.lean`) is the big-step interpreter of template programs
+(text, `{{ expr }}`, if, for/else/recursive, set, set-block, filter-block, with, macros and calls,
+call blocks with `caller()`, include, block/extends/`super()`, `autoescape`; expressions: variables,
+literals, `~ + *`, slice/index/attribute, filters by name, list/map literals, conditionals, `not`,
+`loop.index/first`, `loop(…)`).  It drives the step machine above; the harness sends the AST of every
+generated program to it and the engine output must be byte-equal. -/
+
+/-- Full-strength statement over programs: a program of the safe-marking-free fragment
+    (`HtmlOnlyP`: every template name selects Html by `default_auto_escape_callback`, every
+    `autoescape` block is `true`/`"html"`, every filter is modelled and none is `safe`/`tojson`),
+    rendered with any context, never writes a `< > " '` that came from context data or from a
+    string literal. -/
+def C02_programs : Prop :=
+  ∀ (p : Prog) (ctx : List (String × CV)) (st : St), HtmlOnlyP p → execProg false p ctx = some st → Clean st.out
+
+theorem program_no_raw_tainted_meta : C02_programs := by
+  intro p ctx st hp h
+  exact (execProg_frag_inv hp ctx st h).out_clean
+
+/-- the same without any syntactic premise for the *guarded* interpreter, which refuses to emit or
+    filter outside Html mode and to apply `safe`/`tojson` (this is the interpreter the driver runs on
+    generated fragment programs, so a program leaving the fragment shows up as a disagreement) -/
+theorem program_no_raw_tainted_meta_strict (p : Prog) (ctx : List (String × CV)) (st : St)
+    (h : execProg true p ctx = some st) : Clean st.out :=
+  (execProg_inv p ctx st h).out_clean
+
+/-- every register and every open capture of the final state satisfies the invariant as well -/
+theorem program_final_state_inv (p : Prog) (ctx : List (String × CV)) (st : St) (hp : HtmlOnlyP p)
+    (h : execProg false p ctx = some st) : (∀ v ∈ st.pool, Inv v) ∧ ∀ b ∈ st.caps, Clean b :=
+  let r := execProg_frag_inv hp ctx st h
+  ⟨r.1, r.2.1⟩
 
 /-! ## the hypotheses are necessary (the excluded constructs really break the invariant) -/
 
